@@ -1,7 +1,7 @@
 ---------------------------- MODULE ClientStartMC ----------------------------
 EXTENDS ClientStart
 AllScenarios == {[kind |-> "remote", step |-> st, how |-> "na", pers |-> "F"] :
-                    st \in {"healthy", "refuse_data", "unknown_ctx", "conn", "kill_hdr", "kill_self", "kill_addr", "kill_spawn", "kill_window"}}
+                    st \in {"healthy", "refuse_data", "unknown_ctx", "conn", "kill_hdr", "kill_self", "kill_addr", "kill_spawn", "kill_window", "kill_info", "bk_baseexc"}}
                 \cup {[kind |-> "remote", step |-> st, how |-> h, pers |-> "F"] :
                     st \in {"hdr", "self", "addr0", "addrM", "addrL", "info0", "infoM", "infoL"}, h \in {"fin", "rst"}}
                 \cup {[kind |-> "remote", step |-> st, how |-> h, pers |-> pe] :
@@ -9,10 +9,11 @@ AllScenarios == {[kind |-> "remote", step |-> st, how |-> "na", pers |-> "F"] :
                 \cup {[kind |-> "process", step |-> st, how |-> "na", pers |-> "F"] : st \in {"healthy", "exit_early"}}
 \* known finding: a one-shot backend whose target does not end by itself (pers = "L") never looks at the data connection
 LongOneShot == {[kind |-> "remote", step |-> st, how |-> h, pers |-> "L"] : st \in {"rinfo0", "rinfoM", "rinfoL"}, h \in {"fin", "rst"}}
-FixAll == {"report", "srvclose", "sentinelraise"}
+FixAll == {"report", "srvclose", "sentinelraise", "basereport"}
 FixNone == {}
-FixNoReport == {"srvclose", "sentinelraise"}
-FixNoSrv == {"report", "sentinelraise"}
-FixOnlySentinel == {"sentinelraise"}             \* before the two handshake fixes
-FixNoSentinel == {"report", "srvclose"}        \* the tree as it is now
+FixNoReport == {"srvclose", "sentinelraise", "basereport"}
+FixNoSrv == {"report", "sentinelraise", "basereport"}
+FixOnlySentinel == {"sentinelraise", "basereport"}             \* before the two handshake fixes
+FixNoBase == {"report", "srvclose", "sentinelraise"}      \* the tree as it is: a BaseException during the backend's start-up is not reported
+FixNoSentinel == {"report", "srvclose", "basereport"}        \* the tree as it is now
 =============================================================================
